@@ -39,10 +39,23 @@ CHECKS = {
     'C02': [{'world': 'grow', 'profile': 'C02', 'quick': (25000, 45), 'thorough': (3000000, 600)}],
     'C05': [{'world': 'grow', 'profile': 'C05', 'quick': (25000, 45), 'thorough': (3000000, 600)}],
     'C09': [{'world': 'grow', 'profile': 'C09', 'quick': (25000, 45), 'thorough': (3000000, 600)}],
+    'C18': [{'world': 'pool', 'profile': 'C18', 'quick': (20000, 30), 'thorough': (1500000, 400)},
+            {'world': 'pool', 'profile': 'C18T', 'quick': (6000, 30), 'thorough': (500000, 400)}],
     'C17': [{'world': 'store', 'profile': 'C17', 'quick': (20000, 45), 'thorough': (1500000, 600)}],
 }
 
 COMPONENTS = {
+    'store': {
+        'real': ['static_frame (Bus, Store*, Frame I/O)', 'zipfile', 'sqlite3', 'pickle', 'csv', 'real files on tmpfs'],
+        'stub': ['file modification times (os.utime from the simulated clock)', 'os.path.getmtime (armed to fail once mid-call)',
+                 'the file-system actor (touch / rewrite / replace / truncate / delete / restore events)', 'the client issuing accesses'],
+    },
+    'pool': {
+        'real': ['static_frame (node_iter, Batch, store_zip and everything the tasks call)', 'pickle (process-mode round trips)', 'real threads in baton mode'],
+        'stub': ['ThreadPoolExecutor / ProcessPoolExecutor (SimExecutor honouring the documented Executor contract)',
+                 'thread scheduling (baton: one runnable thread at a time, line-level pre-emption)', 'module-level locks (SimRLock: contention is a scheduling point)',
+                 'worker crashes / task failures'],
+    },
     'grow': {
         'real': ['static_frame (all of it, from the working tree)', 'numpy', 'automap', 'pickle', 'copy'],
         'stub': ['the caller (iterables that fail after k items, invalid arguments, retained arrays)',
